@@ -70,6 +70,7 @@ type oaOp struct {
 	Method string    `json:"method"`
 	Params []oaParam `json:"params"`
 	Resps  []oaResp  `json:"resps"`
+	Shared []oaParam `json:"shared,omitempty"` // path-item level parameters (the same list on every operation of the path)
 }
 type oaDoc struct {
 	Version int        `json:"version"` // 2 or 3
@@ -140,6 +141,17 @@ func (d oaDoc) render() string {
 	}
 	for _, p := range paths {
 		b.WriteString("  " + p + ":\n")
+		if sh := byPath[p][0].Shared; len(sh) > 0 {
+			b.WriteString("    parameters:\n")
+			for _, q := range sh {
+				fmt.Fprintf(&b, "      - name: %s\n        in: %s\n        required: %v\n", q.Name, q.In, q.Required || q.In == "path")
+				if d.Version == 2 {
+					b.WriteString("        type: " + q.Kind + "\n")
+				} else {
+					b.WriteString("        schema:\n          type: " + q.Kind + "\n")
+				}
+			}
+		}
 		for _, o := range byPath[p] {
 			b.WriteString("    " + strings.ToLower(o.Method) + ":\n")
 			var body *oaParam
@@ -302,6 +314,36 @@ func oaDocs(tier string) []oaDoc {
 			{Path: "/a/{id}", Method: "DELETE", Params: []oaParam{{Name: "id", In: "path", Kind: "integer", Required: true}}, Resps: []oaResp{{"204", "none"}}},
 			{Path: "/b", Method: "POST", Params: []oaParam{{Name: "payload", In: "body", Kind: "Other", Required: true}}, Resps: []oaResp{{"201", "ref"}}},
 		}})
+		// path-item level parameters shared by several methods, each with parameters of its own
+		sharedPool := []oaParam{{Name: "id", In: "path", Kind: "integer", Required: true}, {Name: "s1", In: "query", Kind: "string", Required: true}, {Name: "s2", In: "query", Kind: "integer"},
+			{Name: "X-S3", In: "header", Kind: "string", Required: true}, {Name: "s4", In: "query", Kind: "boolean"}, {Name: "s5", In: "query", Kind: "string"}, {Name: "s6", In: "query", Kind: "string"}}
+		ownPool := map[string][]oaParam{
+			"GET":    {{Name: "g1", In: "query", Kind: "string"}, {Name: "g2", In: "query", Kind: "integer", Required: true}},
+			"DELETE": {{Name: "d1", In: "query", Kind: "boolean"}, {Name: "X-D2", In: "header", Kind: "string", Required: true}},
+			"POST":   {{Name: "p1", In: "query", Kind: "string", Required: true}, {Name: "payload", In: "body", Kind: "Other", Required: true}},
+		}
+		for k := 0; k <= len(sharedPool); k++ {
+			path := "/s"
+			if k >= 1 {
+				path = "/s/{id}"
+			}
+			for _, ms := range [][]string{{"GET", "DELETE"}, {"GET", "POST"}, {"DELETE", "POST"}, {"GET", "DELETE", "POST"}} {
+				total := 1
+				for range ms {
+					total *= 3
+				}
+				for code := 0; code < total; code++ {
+					var ops []oaOp
+					c := code
+					for _, m := range ms {
+						own := c % 3
+						c /= 3
+						ops = append(ops, oaOp{Path: path, Method: m, Shared: sharedPool[:k], Params: ownPool[m][:own], Resps: []oaResp{{"200", "ref"}}})
+					}
+					out = append(out, oaDoc{Version: v, Ops: ops})
+				}
+			}
+		}
 	}
 	return out
 }
@@ -501,7 +543,25 @@ func checkOADoc(m *sysl.Module, d oaDoc) (problem, class string) {
 			}
 			return fmt.Sprintf("operation %s %s has no endpoint (endpoints: %v)", o.Method, o.Path, have), "endpoint-missing"
 		}
-		for _, q := range o.Params {
+		wantCount := map[string]int{}
+		for _, q := range append(append([]oaParam{}, o.Shared...), o.Params...) {
+			wantCount[q.In]++
+		}
+		gotHeader := 0
+		for _, pa := range ep.GetParam() {
+			for _, e := range pa.GetType().GetAttrs()["patterns"].GetA().GetElt() {
+				if e.GetS() == "header" {
+					gotHeader++
+				}
+			}
+		}
+		if n := len(ep.GetRestParams().GetQueryParam()); n != wantCount["query"] {
+			return fmt.Sprintf("%s %s: the operation has %d query parameters but the endpoint has %d", o.Method, o.Path, wantCount["query"], n), "query-param-count"
+		}
+		if gotHeader != wantCount["header"] {
+			return fmt.Sprintf("%s %s: the operation has %d header parameters but the endpoint has %d", o.Method, o.Path, wantCount["header"], gotHeader), "header-param-count"
+		}
+		for _, q := range append(append([]oaParam{}, o.Shared...), o.Params...) {
 			found := false
 			want := map[string]sysl.Type_Primitive{"integer": sysl.Type_INT, "string": sysl.Type_STRING, "boolean": sysl.Type_BOOL}[q.Kind]
 			switch q.In {
@@ -900,10 +960,10 @@ func packOA(docs []oaDoc, version, schemasPer, opsPer int) []oaDoc {
 			cur.Schemas = append(cur.Schemas, sc)
 		}
 		for _, op := range d.Ops {
-			op.Path = fmt.Sprintf("/u%d%s", n, op.Path)
-			n++
+			op.Path = fmt.Sprintf("/u%d%s", n, op.Path) // one prefix per document: its operations keep sharing paths
 			cur.Ops = append(cur.Ops, op)
 		}
+		n++
 		if len(cur.Schemas) >= schemasPer || len(cur.Ops) >= opsPer {
 			flush()
 		}
